@@ -19,6 +19,8 @@ A_EFFECTS = dict(Leaves=["i0", "i1", "au0", "ba", "gget"], UnOps=["itob"], BinOp
 A_LOOPS = dict(Leaves=["i1", "au0"], UnOps=[], BinOps=["<", "+"],
                Stmts=["Pop", "Store", "Return", "Approve"],
                Ctrl=["Seq2", "Seq3", "If2", "For", "While", "Break", "Continue", "VSeq"], NVarsU=2, NVarsB=0)
+A_STATE = dict(Leaves=["i1", "au0", "gget", "lget"], UnOps=[], BinOps=["+"], Stmts=["GPut", "GDel", "LPut", "LDel", "MVMacros", "LogU"],
+               Ctrl=["Seq2", "Seq3", "If2", "VSeq"], NVarsU=0, NVarsB=0)
 A_NEST = dict(Leaves=["i1"], UnOps=[], BinOps=[], Stmts=["LogC", "ContIf", "BrkIf"],
               Ctrl=["Seq2", "Seq3", "CWhile", "CFor", "VSeq"], NVarsU=0, NVarsB=0, NCtr=2)
 A_CALLS = dict(Leaves=["i1", "au0"], UnOps=[], BinOps=["-", "<"], Stmts=["Pop", "Return"],
@@ -63,10 +65,10 @@ def c01_programs(tier, seed, rnd):
     plans = []
     if tier == "quick":
         plans = [("control", A_CONTROL, 6, 2000), ("effects", A_EFFECTS, 6, 1200), ("loops", A_LOOPS, 6, 700),
-                 ("nest", A_NEST, 8, 1300), ("optm", A_OPTM, 7, 900)]
+                 ("nest", A_NEST, 8, 1300), ("optm", A_OPTM, 7, 900), ("state", A_STATE, 6, 900)]
     else:
         plans = [("control", A_CONTROL, 7, 30000), ("effects", A_EFFECTS, 7, 15000), ("loops", A_LOOPS, 7, 10000),
-                 ("nest", A_NEST, 9, 12500), ("optm", A_OPTM, 8, 20000)]
+                 ("nest", A_NEST, 9, 12500), ("optm", A_OPTM, 8, 20000), ("state", A_STATE, 7, 12000)]
     progs, results = [], []
     for name, alpha, n, cap in plans:
         c = dict(alpha)
